@@ -34,6 +34,10 @@ type shrinkCase struct {
 	InitRaw [][]string              `json:"initraw"`
 	During []shrinkDuring           `json:"during"`
 	Crash  string                   `json:"crash"` // "" or one of the shrink.final.* points
+	// the next process lifetime (crash cases): commands issued on the server restarted from the crash copy,
+	// followed by a complete AOFSHRINK, one more write and another restart
+	Round2 []map[string]interface{} `json:"round2"`
+	Round2Raw [][]string             `json:"round2raw"`
 }
 
 type shrinkMismatch struct {
@@ -330,19 +334,74 @@ func shrinkOne(ci int, sc *shrinkCase) ([]shrinkMismatch, map[string]int, error)
 		if crashDir == "" {
 			return nil, nil, fmt.Errorf("crash point %s was never reached", sc.Crash)
 		}
-		s3, err := t38.Start(t38.Options{Dir: crashDir})
+		g3 := &shrinkGates{arrived: make(chan string), release: make(chan struct{})}
+		port3 := t38.FreePort()
+		t38.SetHook(port3, g3.hook)
+		s3, err := t38.Start(t38.Options{Dir: crashDir, Port: port3})
 		if err != nil {
 			out = append(out, shrinkMismatch{ci, "crash", fmt.Sprintf("killed at %s: server does not start: %v", sc.Crash, err)})
 			os.RemoveAll(crashDir)
 		} else {
 			if d := diffStates(crashState, s3.S.VerifDump(true), 2e9); len(d) > 0 {
 				out = append(out, shrinkMismatch{ci, "crash", fmt.Sprintf("killed at %s: the restart does not recover the acknowledged dataset: %s", sc.Crash, strings.Join(d, "; "))})
+			} else if len(sc.Round2)+len(sc.Round2Raw) > 0 {
+				// the next process lifetime on whatever the kill left in the directory: writes, a complete
+				// rewrite, one more acknowledged write, restart
+				ms, err := shrinkRound2(ci, sc, s3, g3)
+				if err != nil {
+					s3.StopAndRemove()
+					return nil, nil, err
+				}
+				out = append(out, ms...)
+				stats["round2"]++
 			}
 			s3.StopAndRemove()
 			stats["crash_restarts"]++
 		}
 	}
 	return out, stats, nil
+}
+
+// shrinkRound2: second process lifetime after a kill during the swap (Shrink.tla: Restart, Write*, Start ... Reopen).
+func shrinkRound2(ci int, sc *shrinkCase, s3 *t38.Srv, g3 *shrinkGates) ([]shrinkMismatch, error) {
+	var out []shrinkMismatch
+	c, err := s3.Dial()
+	if err != nil {
+		return nil, err
+	}
+	defer c.Close()
+	for _, ac := range sc.Round2 {
+		if _, err := c.Do(ks.Concrete(ac)...); err != nil {
+			return nil, err
+		}
+	}
+	for _, raw := range sc.Round2Raw {
+		if _, err := c.Do(raw...); err != nil {
+			return nil, err
+		}
+	}
+	if _, err := runShrinkOnce(c, g3, nil); err != nil {
+		return nil, err
+	}
+	if r, err := c.Do("SET", ks.Keys[0], "after-second-shrink", "FIELD", "n", "7", "POINT", "5", "6"); err != nil || r.Kind == '-' {
+		return nil, fmt.Errorf("write after the second rewrite: %v %v", r, err)
+	}
+	live := s3.S.VerifDump(true)
+	dir, err := copyDataDir(s3.Dir)
+	if err != nil {
+		return nil, err
+	}
+	s4, err := t38.Start(t38.Options{Dir: dir})
+	if err != nil {
+		out = append(out, shrinkMismatch{ci, "round2", fmt.Sprintf("killed at %s, restarted, shrunk again: the server does not start on the rewritten log: %v", sc.Crash, err)})
+		os.RemoveAll(dir)
+		return out, nil
+	}
+	if d := diffStates(live, s4.S.VerifDump(true), 2e9); len(d) > 0 {
+		out = append(out, shrinkMismatch{ci, "round2", fmt.Sprintf("killed at %s, restarted, shrunk again: a restart on the rewritten log differs from the dataset served: %s", sc.Crash, strings.Join(d, "; "))})
+	}
+	s4.StopAndRemove()
+	return out, nil
 }
 
 func shrinkRun(args []string) int {
